@@ -93,6 +93,25 @@ define i32 @2(i32) {
 }
 `
 
+// c13P5: two functions that hold the address of a block of each other as instruction operands (a
+// printer that numbers the functions it refers to while holding its own function's lock takes the
+// two function locks in opposite orders in two threads).
+const c13P5 = `define i32 @f(i32) {
+  %2 = add i32 %0, 1
+  br label %bf
+bf:
+  store i8* blockaddress(@g, %bg), i8** undef
+  ret i32 %2
+}
+define i32 @g(i32) {
+  %2 = add i32 %0, 2
+  br label %bg
+bg:
+  store i8* blockaddress(@f, %bf), i8** undef
+  ret i32 %2
+}
+`
+
 func c13parse(text string) *ir.Module {
 	m, err := asm.ParseString("c13.ll", text)
 	if err != nil {
@@ -175,6 +194,7 @@ var c13mods = []c13mod{
 	{"K2-constructed-printed-once", func() *ir.Module { m := c13K(); _ = m.String(); return m }, true},
 	{"P4-generated-all-kinds", c13generated, true},
 	{"K3-constructed-from-struct-literals-named", c13K3, true},
+	{"P5-parsed-mutual-blockaddress", func() *ir.Module { return c13parse(c13P5) }, true},
 }
 
 // c13K3 is a module assembled from struct literals (not through the New* constructors), every
@@ -343,7 +363,7 @@ func c13scenarios(quick bool) []c13scenario {
 				if md.name == "P2-parsed-named" && (i > 2 || j > 5) {
 					continue // named-only module: keep a core set
 				}
-				if md.name == "P3-parsed-2funcs" && !(i <= 3 && j <= 3) {
+				if (md.name == "P3-parsed-2funcs" || md.name == "P5-parsed-mutual-blockaddress") && !(i <= 3 && j <= 3) {
 					continue
 				}
 				if md.name == "P4-generated-all-kinds" && !(i == 0 && j <= 1) {
